@@ -158,7 +158,11 @@ func (w *worldCheck) faultPlans() []*FaultPlan {
 		plans = append(plans, &FaultPlan{FailCall: k})
 	}
 	plans = append(plans, &FaultPlan{FailCall: len(u.Docs)*2 + 1}) // never fires
-	_ = c
+	for _, p := range plans {
+		if c.W(3) == 0 {
+			p.Partial = 1 + c.W(2) // the error comes with a non-nil schema
+		}
+	}
 	return plans
 }
 
